@@ -594,6 +594,19 @@ func scnTimed(o *Out, r *Rng, thorough bool) {
 		for _, tmo := range tmos {
 			for _, su := range setups {
 				op := c07Op(r)
+				if su.scheme == "l:udp" || su.scheme == "l:tcp" || su.scheme == "s:tcp" {
+					// also the largest replies a datagram / frame can carry (257 and 259 bytes)
+					big := [][]string{{"ReadRegisters", "10", hxi(125), "0"}, {"ReadRegisters", "20", hxi(124), "1"}}[r.Intn(2)]
+					for _, c := range c07Cases(r, su.scheme, tmo, big, thorough) {
+						if !strings.HasPrefix(c.beh, "delay") && !strings.HasPrefix(c.beh, "split") {
+							continue
+						}
+						ct, ch := c.tokens()
+						ins = append(ins, strings.Join(append([]string{su.scheme, itoa(su.speed), itoa(tmo), c.beh, ct, ch}, big...), " "))
+						behs = append(behs, c.beh)
+						o.Stat("timed:beh:" + c.beh + ":max-size")
+					}
+				}
 				for _, c := range c07Cases(r, su.scheme, tmo, op, thorough) {
 					ct, ch := c.tokens()
 					ins = append(ins, strings.Join(append([]string{su.scheme, itoa(su.speed), itoa(tmo), c.beh, ct, ch}, op...), " "))
